@@ -84,6 +84,35 @@ CLAIMED = {
         'technique': 'Lean 4 proof (list/arith lemmas) + differential correspondence against the model and NumPy',
         'design_ref': '§5 C13',
     },
+    'C17': {
+        'text': ('Lean theorems: rounding is to the nearest integer (|round p − p| ≤ 1/2, ties to even, integers fixed); '
+                 'for any number of dimensions in-map integer coordinates are in bijection with 0..N−1 through the '
+                 'first-coordinate-fastest mixed-radix formula the code accumulates, any out-of-map coordinate gives −1, '
+                 'int32 is chosen only when N−1 fits; the coverage is the histogram of hits and sums to the number of '
+                 'samples.  The executable model is compared with pixel2index / get_coverage on dyadic coordinates incl. '
+                 'exact ties and out-of-map values; NumPy (ravel_multi_index, bincount) and healpy are the oracles on the '
+                 'implementation; small maps are enumerated exhaustively.'),
+        'note': ('PARTIAL: the HEALPix lookup (jax_healpy.ang2pix, A5) is outside the model; agreement with healpy in ring '
+                 'ordering is differential only (all sampled pixel centres, random directions in 64-bit mode). Trusted: Lean '
+                 'kernel + standard axioms; jnp.round / unique / scatter-add as documented (A1). Known finding F11: maps with '
+                 'more than 2**31 pixels cannot be indexed with 64-bit mode off.'),
+        'technique': 'Lean 4 proof (mixed-radix induction, Rat.floor) + differential correspondence; healpy differential for A5',
+        'design_ref': '§5 C17',
+    },
+    'C19': {
+        'text': ('Lean theorems about the executable state machine of the context variable: over properly nested histories '
+                 'of any depth, leaving a block (normally or by exception) restores exactly the previous configuration and '
+                 'token stack, a program ends with the defaults, the active configuration is the fold of the open blocks\' '
+                 'settings over the defaults (named settings override, others inherited), a lazy inverse keeps the '
+                 'configuration captured at creation whatever happens later, and for every interleaving of several contexts '
+                 'each context evolves as if run alone.  Real `with Config(...)` statements (real exceptions) are executed '
+                 'in real threads under a seeded scheduler and every observation is compared with the state machine; real '
+                 'solves show which settings a lazy inverse uses.'),
+        'note': ('PARTIAL with respect to OS scheduling: the theorem covers all interleavings of the abstract events; real '
+                 'threads are sampled. Trusted: Lean kernel + standard axioms; A6 (contextvars semantics).'),
+        'technique': 'Lean 4 proof (induction over well-nested histories / interleavings) + differential correspondence in real threads',
+        'design_ref': '§5 C19',
+    },
 }
 
 ALL = [f'C{i:02d}' for i in range(1, 21)]
